@@ -1,8 +1,63 @@
 import HapVerif.Model.C06
-import HapVerif.Drv.Common
+import HapVerif.Drv.C03
+/-!
+Driver of C06.  `C06 world|hist <ops...> => <verdict> <balances>`; verdict = `same` or
+`diff:<class>:<item>` (first difference between two runs of the implementation on the same case),
+balances = `backend=algorithm,...` of the baseline run.
+agree: the model is invariant under the permutation of the object lists on this case, and a
+difference reported by the implementation is one the model predicts (an answer that depends on the
+map iteration order).  oracle: any difference violates the property.
+-/
 namespace HapVerif.C06
-open HapVerif.Drv
+open HapVerif.Drv HapVerif.Sync HapVerif.Sync.Parse
+open HapVerif.C04 (Str)
 
-def handle (_args : List String) (_impl : String) : Verdict := bad "C06-not-implemented"
+def parseBal (s : Str) : Option (Str × Str) :=
+  match split1 '=' s with
+  | (b, some a) => some (b, a)
+  | _ => none
+
+def handleCase (toks : List String) (impl : String) : Verdict :=
+  match worldOf toks with
+  | none => bad "parse-ops"
+  | some w =>
+    match words impl with
+    | [verdict, bals] =>
+      match C03.parseItems parseBal bals with
+      | none => bad "parse-balances"
+      | some bs =>
+        let c := fullSync w
+        let inv := sameCfg c (fullSync (permute w))
+        let balOracle := bs.findSome? fun (id, alg) =>
+          match C03.keyOfId w id with
+          | none => some "backend-without-declaration"
+          | some k =>
+            if (annOf w k "balance-algorithm".toList).getD "roundrobin".toList = alg then none
+            else some "annotation-conflict-not-resolved-by-creation-order"
+        let v := verdict.toList
+        if verdict = "same" then
+          { model := "same", agree := inv, oracle := balOracle, trivial := c.paths.length < 2 }
+        else if verdict = "PANIC" then { model := "same", agree := false, oracle := some "panic" }
+        else
+          match splitOnC ':' v with
+          | tag :: cls :: rest =>
+            let item := ":".toList.intercalate rest
+            if tag ≠ "diff".toList then { model := "same", agree := false, oracle := some "run-error" }
+            else if cls = "route".toList then
+              match C03.parseRoute (item ++ ">x".toList) with
+              | some (r, _) =>
+                if iterDependent c r then
+                  { model := "iteration-dependent", agree := inv, oracle := some "order-dependent-tie-between-path-types" }
+                else { model := "same", agree := false, oracle := some "order-dependent-config-route" }
+              | none => bad "parse-route"
+            else { model := "same", agree := false, oracle := some ("order-dependent-config-" ++ String.ofList cls) }
+          | _ => { model := "same", agree := false, oracle := some "run-error" }
+    | _ => bad "parse-impl-fields"
+
+def handle (args : List String) (impl : String) : Verdict :=
+  match args with
+  | "world" :: toks => handleCase toks impl
+  | "hist" :: toks => handleCase toks impl
+  | _ => bad "C06"
 
 end HapVerif.C06
